@@ -33,10 +33,9 @@ RULE = (
 ASSUMPTIONS = [
     "frame-mode stack built through the public bring-up path; the stub gateway runs in the caller's "
     "task (as bellows.uart.Gateway does without a thread), which is how requests are attributed to calls",
-    "callback-type frames are sent under a sequence number no request is outstanding for (as NCPs "
-    "do: the last processed command's); a late reply to a timed-out call, and frames under the "
-    "sequence of a dead (timed-out / cancelled / failed) request, are only required not to "
-    "complete anything else",
+    "callback-type frames are sent under the sequence number of the last completed command (as NCPs "
+    "do); a frame under the sequence number of a request that already ended (late reply, or a callback "
+    "reusing it) answers no pending call and must reach the callbacks like any unsolicited frame",
     "EZSP_CMD_TIMEOUT is read from the tree",
 ]
 REACH = {t: ["beh_now", "beh_delay", "beh_late", "beh_never", "beh_twice", "beh_cb_before", "beh_cb_after",
@@ -315,15 +314,20 @@ def check_history(case, tr, info):
             consumed_by[idx] = owner
             if cbs:
                 pass  # not demanded either way
-        elif dead:
-            facts.add("frame_under_dead_sequence")
         else:
+            if dead:
+                facts.add("frame_under_dead_sequence")
             # unambiguously unsolicited: every registered callback exactly once
             name_ok = [c for c in cbs if c[4] == list(values)]
             per = {0: 0, 1: 0}
             for c in name_ok:
                 per[c[2]] += 1
-            if per != {0: 1, 1: 1}:
+            if per != {0: 1, 1: 1} and dead and per == {0: 0, 1: 0}:
+                bad.append(("C06/unsolicited/frame-under-ended-request-sequence-dropped",
+                            f"frame {tag} under sequence {seq} arrived after the request with that sequence number had "
+                            f"ended (timeout / cancellation / send failure): it answers no pending call, yet no registered "
+                            f"callback received it"))
+            elif per != {0: 1, 1: 1}:
                 bad.append(("C06/unsolicited/not-delivered-exactly-once",
                             f"frame {tag} under sequence {seq} answers no pending call but the two registered callbacks "
                             f"were invoked {per} times with its values"))
